@@ -2,7 +2,8 @@
 
 EditSwap.tla: the program is a list of independent stateful voices; channel A
 sums the voices no edit has touched, channel B the rest.  TLC explores every
-history of ticks, edits (insert / delete / replace a voice, change a constant)
+history of ticks, edits (insert / delete / replace a voice, change a constant, nest a
+voice one call deeper or back)
 and failing compilations within the bounds; the specification's state after a
 swap is what the property promises (cells of surviving voices move with the
 voice, everything else starts at zero, the clock keeps running; a failing
